@@ -35,6 +35,7 @@ def check(run):
             run, "C11.1.totality", F, cfg, a7_cones.PARSE_ROOTS, a7_common.rows(), a7_common.ALL,
             floor=140, label="list-parsing"))
         run.guard("C11.2.line-independence", cfg, lambda: rule_independence(run, F, cfg))
+        run.guard("C11.2.line-independence", cfg + "/locations", lambda: rule_location_loop(run, F, cfg))
         run.guard("C11.3.hosts-delegation", cfg, lambda: rule_hosts(run, F, cfg))
         run.guard("C11.4.rule-types", cfg, lambda: rule_types(run, F, cfg))
         from . import wire_keys as _wk
@@ -47,6 +48,38 @@ def check(run):
             from . import C18 as _C18g
             b182 = run.borrow("C18", only=r"pairwise-permission|injection-mask", why="ParseOptions::permissions is an option of ONE list: its rules are resolved with that mask, not with the union of all lists that have a rule for the page")
             run.guard("C11.via.C18.2.gate-provenance", cfg, lambda: _C18g.rule_gate(b182, F, cfg))
+
+
+def rule_location_loop(run, F, cfg):
+    """A cosmetic line is rejected as a whole when one of its locations cannot be converted (PunycodeError): every
+    iteration of the location loop of parse_before_sharp either records the location (a hash pushed into one of the
+    four lists, or the unsupported flag set) or leaves the function. An iteration that merely `continue`s turns
+    `bad-idn.example##.ad` into a rule with fewer — possibly no — locations, i.e. into a generic rule."""
+    from analysis.guards import natural_loops, loop_of_iteration
+    f = F.fn("filters::cosmetic::CosmeticFilter::parse_before_sharp")
+    run.touched(f)
+    loops = natural_loops(f)
+    heads = [(b, t) for b, t in f.calls(r"Iterator>::next$|Iterator::next$") if "locations_before_sharp(" in f.expr_operand(t["args"][0])]
+    ok = len(heads) == 1
+    skip = []
+    if ok:
+        hb = heads[0][0]
+        lp = loop_of_iteration(f, loops, hb)
+        body = lp[1] if lp else set()
+        flag = [l for l, nme in f.varnames.items() if nme == "any_unsupported"]
+        work = {b for b, t in f.calls(r"^std::vec::Vec::push$") if b in body}
+        work |= {b for b, i, st in f.statements() if b in body and st["k"] == "assign" and st["pl"]["l"] in flag and not st["pl"]["p"]
+                 and f.expr_rvalue(st["rv"]) == "true"}
+        ok = len(work) >= 5
+        # from the block the call returns to: can the header be reached again without passing a work block?
+        start = heads[0][1].get("t")
+        if start is not None and hb in f.reachable_from(start, avoid=work):
+            # report where: the first successor edges back to the header from non-work blocks
+            skip = [f.loc(x) for x in sorted(body) if x not in work and hb in f.succ(x) and x in f.reachable_from(start, avoid=work)]
+    run.ob("C11.2.line-independence", "every-location-recorded-or-line-rejected", ok and not skip,
+           "in parse_before_sharp every iteration over the locations pushes a hash / sets the unsupported flag, or returns: no "
+           f"path leads back to the loop head without recording the location (skipping edges at {skip[:3]})",
+           site=skip[0] if skip else f.loc(0), config=cfg)
 
 
 def rule_independence(run, F, cfg):
@@ -168,6 +201,22 @@ def rule_hosts(run, F, cfg):
     run.ob("C11.3.hosts-delegation", "www-trim-after-lowercase", len(trims) >= 2 and all(o for _, o in trims),
            "`www.` is stripped from the lower-cased hostname in NetworkFilter::parse as well as in parse_hosts_style, so "
            f"`0.0.0.0 WWW.Example.com` and `||WWW.Example.com^` yield the same rule ({trims})", config=cfg)
+    # what the parsers return is handed on as it is: the closures parse_filter maps over the parse results only convert
+    # the type (`.map(|f| f.into())`); rewriting a field there (e.g. raw_line in debug mode) makes a hosts entry differ
+    # from the `||host^` rule it stands for
+    fw = []
+    for b, t in pf.calls(r"^std::result::Result::map$"):
+        e = pf.expr_call(t)
+        m_ = re.match(r"^std::result::Result::map\((filters::network::NetworkFilter::parse_hosts_style|filters::network::NetworkFilter::parse|filters::cosmetic::CosmeticFilter::parse)\(.*, closure\[([^\]]+)\]\(", e)
+        if not m_:
+            continue
+        c = F.fns.get(m_.group(2))
+        callees = [strip_generics(ct["callee"]) for cb, ct in c.calls()] if c else ["?"]
+        writes = [c.expr_place(st["pl"]) for cb, ci, st in c.statements() if st["k"] == "assign" and st["pl"]["p"] and st["pl"]["l"] != 0] if c else ["?"]
+        fw.append((m_.group(1).split("::")[-1], callees == ["<T as std::convert::Into<U>>::into"] and not writes, callees, writes))
+    run.ob("C11.3.hosts-delegation", "parse-results-forwarded-unchanged", len(fw) == 3 and all(x[1] for x in fw),
+           "parse_filter maps the results of NetworkFilter::parse, parse_hosts_style and CosmeticFilter::parse through closures "
+           f"that only convert the type with Into::into ({[(x[0], x[2], x[3]) for x in fw]})", site=pf.loc(0), config=cfg)
     run.ob("C11.3.hosts-delegation", "hosts-arm-gated", ok_g,
            "in parse_filter the hosts arm reaches parse_hosts_style only under rule_types.loads_network_rules()", config=cfg)
 
